@@ -115,6 +115,7 @@ class MockPg:
         self.named_names = []
         self.closed = False
         self.died = False
+        self.tables_created = False      # CREATE TABLE seen: statements over `notyet` are accepted from then on
         self.last_delivered = None
         self.slow = False                    # the statement being answered is one the backend is slow on (pg_sleep)
         self.params = dict(PARAM_DEFAULTS)   # the reported (GUC_REPORT) session parameters pgcat tracks
@@ -222,6 +223,13 @@ class MockPg:
                 self.named.append(nm.z() != 0)
                 self.named_names.append(show(body[:8]))
                 name, sql = self.cstrings(body, 2)
+                if sql is not None and b'notyet' in sql.lower() and not self.tables_created:
+                    # a statement over a relation that does not exist (yet): the server rejects the Parse itself
+                    self.pending.append(self.emit(req, 'E', b'SERROR\0C42P01\0Mrelation "notyet" does not exist\0\0'))
+                    if not self.st_is('I'):
+                        self.set_status('E')
+                    self.ignore_till_sync = True
+                    return
                 if name is not None:
                     self.stmts[name] = sql
                 self.pending.append(self.emit(req, '1'))
@@ -417,6 +425,9 @@ class MockPg:
                 self.named = []
                 self.stmts = {}
                 out.append(self.emit(req, 'C', b'DEALLOCATE ALL\0'))
+            elif u.startswith('CREATE TABLE'):
+                self.tables_created = True
+                out.append(self.emit(req, 'C', b'CREATE TABLE\0'))
             elif u.startswith('PREPARE '):
                 if self.st_is('I'):
                     self.sql_prepared = True
